@@ -136,11 +136,11 @@ def extract(repo=REPO, crate="rtcp_types", extra_args=("--lib",), tag=None):
             raise FactsError("stale fact file: nonce mismatch")
         os.replace(produced, out)
         shutil.rmtree(tmp, ignore_errors=True)
-        # keep the cache small: drop fact files other than the 6 most recent
+        # keep the cache small: drop fact files other than the 40 most recent (about 2 MB each)
         fdir = os.path.join(CACHE, "facts")
         olds = sorted((f for f in os.listdir(fdir) if f.endswith(".json")),
                       key=lambda f: os.path.getmtime(os.path.join(fdir, f)))
-        for f in olds[:-6]:
+        for f in olds[:-40]:
             os.remove(os.path.join(fdir, f))
         return out
     finally:
@@ -233,6 +233,12 @@ class Facts:
 
 
 def load(repo=REPO):
+    for attempt in range(3):
+        try:
+            return Facts(extract(repo))
+        except FileNotFoundError:
+            # another process pruned the cache between our extraction and our read: extract again
+            continue
     return Facts(extract(repo))
 
 
